@@ -105,6 +105,12 @@ QuiescentEqual(E2, doc2, reg2, last2) ==
      /\ reg2[p] = reg2[q] /\ RecReg(last2[p].awreg) = RecReg(last2[q].awreg)
 
 Failing(chk) == {chk[i][1] : i \in {j \in 1..Len(chk) : ~chk[j][2]}}
+(* awareness registers: the recorded register is adopted; the specification's prediction must agree on the DATA of every *)
+(* client (who is live with what state) - by how much clocks advance is the implementation's choice (DRIFT)             *)
+RegWf(r) == \A i, j \in 1..Len(r) : r[i].c = r[j].c => i = j
+SameData(a, b) == DOMAIN a = DOMAIN b /\ \A c \in DOMAIN a : a[c].data = b[c].data
+RegDrift(rec, pred) == IF rec # pred THEN {"awareness-clock-policy"} ELSE {}
+
 Record(chk, dr) ==
   /\ viol' = viol \cup {<<bid, p, l>> : p \in Failing(chk)}
   /\ failed' = (failed \/ Failing(chk) # {})
@@ -196,6 +202,7 @@ Connect ==
          conn2 == [conn EXCEPT ![p] = TRUE]
          chan2 == IF ok THEN Send(chan, p, Other(p), Ev.sent) ELSE chan
          last2 == [last EXCEPT ![p] = Ev.obs]
+         regA == IF RegWf(Ev.obs.awreg) THEN [reg EXCEPT ![p] = RecReg(Ev.obs.awreg)] ELSE reg
          chk == << <<"C18_NoFailure", Ev.outcome = "ok">>,
                    <<"C18_StartShape", ok>>,
                    <<"C18_Step1Exact", ok => \A i \in s1 : (C18_Step1Exact(Ids(Ev.obs.ids), fr.msgs[i])
@@ -204,11 +211,11 @@ Connect ==
                                                   fr.msgs[i].t = "aw" => AwSent(reg[p], fr.msgs[i].entries)>>,
                    <<"C18_MessageRoundTrip", AllRoundTrip(Ev.sent)>>,
                    <<"C18_DocExact", DocExact(E, doc[p], Ev.obs) /\ SvExact(Ev.obs)>>,
-                   <<"C18_RegisterExact", RecReg(Ev.obs.awreg) = reg[p]>> >>
-                \o QChk(E, doc, reg, conn2, chan2, last2)
-     IN /\ Record(chk, {})
-        /\ conn' = conn2 /\ chan' = chan2 /\ last' = last2
-  /\ UNCHANGED <<bid, E, doc, reg, edits>>
+                   <<"C18_RegisterData", RegWf(Ev.obs.awreg) /\ SameData(RecReg(Ev.obs.awreg), reg[p])>> >>
+                \o QChk(E, doc, regA, conn2, chan2, last2)
+     IN /\ Record(chk, RegDrift(RecReg(Ev.obs.awreg), reg[p]))
+        /\ conn' = conn2 /\ chan' = chan2 /\ last' = last2 /\ reg' = regA
+  /\ UNCHANGED <<bid, E, doc, edits>>
 
 (* Protocol::handle on the head frame of the inbox: every message in order; the replies are *)
 (* bound from the log and checked                                                          *)
@@ -240,7 +247,7 @@ Handle ==
          ms == IF okin THEN Head(chan[<<q, p>>]).msgs ELSE <<>>
          r  == Fold(p, ms, [doc |-> doc[p], reg |-> reg[p]], Ev.sent, 0, <<>>)
          doc2 == [doc EXCEPT ![p] = r.s.doc]
-         reg2 == [reg EXCEPT ![p] = r.s.reg]
+         reg2 == [reg EXCEPT ![p] = IF RegWf(Ev.obs.awreg) THEN RecReg(Ev.obs.awreg) ELSE r.s.reg]
          chan1 == IF okin THEN [chan EXCEPT ![<<q, p>>] = Tail(@)] ELSE chan
          chan2 == Send(chan1, p, q, Ev.sent)
          last2 == [last EXCEPT ![p] = Ev.obs]
@@ -249,9 +256,9 @@ Handle ==
                    <<"C18_ReplyCount", Len(Ev.sent) = r.k>>,
                    <<"C18_MessageRoundTrip", AllRoundTrip(Ev.sent)>>,
                    <<"C18_DocExact", DocExact(E, r.s.doc, Ev.obs) /\ SvExact(Ev.obs)>>,
-                   <<"C18_RegisterExact", RecReg(Ev.obs.awreg) = r.s.reg>> >>
+                   <<"C18_RegisterData", RegWf(Ev.obs.awreg) /\ SameData(RecReg(Ev.obs.awreg), r.s.reg)>> >>
                 \o r.chk \o QChk(E, doc2, reg2, conn, chan2, last2)
-     IN /\ Record(chk, {})
+     IN /\ Record(chk, RegDrift(RecReg(Ev.obs.awreg), r.s.reg))
         /\ doc' = doc2 /\ reg' = reg2 /\ chan' = chan2 /\ last' = last2
   /\ UNCHANGED <<bid, E, conn, edits>>
 
